@@ -82,7 +82,8 @@ func VerifC06TwoAdds() {
 	vf.Reach("end")
 }
 
-// VerifC06Select: meta ops go to track 0; the i-th fixed op goes to 1 + i mod (N-1), in range.
+// VerifC06Select: meta ops go to track 0 (C08: tempo and signatures live in the first track); a
+// fixed op goes to one of the N tracks, whichever the implementation chooses.
 func VerifC06Select() {
 	n := vf.NondetIntRange("tracks", 1, vf.Param("C06.maxTracksSel", 32))
 	sel, err := NewTrackNoSelector(n)
@@ -92,11 +93,9 @@ func VerifC06Select() {
 	vf.Assume(t >= 0)
 	got := sel.Select(NewFixedTrack(t))
 	vf.Assert("fixed-in-range", got >= 0 && got < n)
-	if n == 1 {
-		vf.Assert("single-track", got == 0)
-	} else {
-		vf.Assert("fixed-round-robin-over-non-meta-tracks", got == 1+t%(n-1))
-	}
+	// which of the N tracks a note goes to is the implementation's choice ("only their
+	// distribution over tracks differs"); it must be one of them, and the same one each time
+	vf.Assert("selection-is-a-function-of-the-index", sel.Select(NewFixedTrack(t)) == got)
 	vf.Reach("end")
 }
 
